@@ -494,6 +494,16 @@ func (s *Server) processUpstream(dctx *dnsContext) (rc resultCode) {
 	}
 
 	if dctx.err = prx.Resolve(pctx); dctx.err != nil {
+		if dctx.origQuestion.Name != "" {
+			// The question has been replaced by the one for the canonical name
+			// of a rewrite, so restore the original one for the error
+			// response to match the request of the client.
+			pctx.Req.Question[0] = dctx.origQuestion
+			if pctx.Res != nil && len(pctx.Res.Question) > 0 {
+				pctx.Res.Question[0] = dctx.origQuestion
+			}
+		}
+
 		return resultCodeError
 	}
 
